@@ -69,8 +69,11 @@ partial def jExpr (j : Json) : PV.R PyExpr := do
   | "f2" => pure (.call2 (← jFunc j) (← jExpr (← field j "a")) (← jExpr (← field j "b")))
   | k => throw s!"unknown expression node {k}"
 
+/-- "state": null = the option `state=None` of `evaluate` (resolved by the model, `withState`) -/
+def jState (j : Json) : PV.R (Option Vec) := field j "state" >>= jOpt (jList jRat)
+
 def jEnv (j : Json) : PV.R Env := do
-  pure { state := ← fRats j "state", iterVals := ← fRatss j "iter", timeVals := ← fRatss j "time",
+  pure { state := (← jState j).getD [], iterVals := ← fRatss j "iter", timeVals := ← fRatss j "time",
          tdIter := ← fRatss j "tdIter", tdTime := ← (field j "tdTime" >>= jList (jList (jList jRat))) }
 
 def errName : Err → String
@@ -113,8 +116,12 @@ def ofValues : PorepyVerif.C02.R (List Value) → Json
 def run (j : Json) : PV.R Json := do
   match ← fStr j "op" with
   | "eval" =>
-    let env ← jEnv (← field j "env")
+    let env0 ← jEnv (← field j "env")
+    let st ← jState (← field j "env")
     let e ← jExpr (← field j "expr")
+    match withState env0 st with
+    | .error k => pure (obj [("state_err", Json.str (errName k))])
+    | .ok env =>
     match build e with
     | .error k => pure (obj [("build_err", Json.str (errName k))])
     | .ok (.raw _) => pure (obj [("build_err", Json.str "raw")])
@@ -126,8 +133,9 @@ def run (j : Json) : PV.R Json := do
       let lists : List (String × Json) :=
         if trees.length != built.length then [("list_build_err", Json.bool true)]
         else [("l1", ofValues (evaluateList true env (t :: trees))), ("l0", ofValues (evaluateList false env (t :: trees)))]
-      pure (obj ([("tree", Json.str (treeStr t)),
-                 ("d1", ofValue (evaluate true env t)), ("d0", ofValue (evaluate false env t)),
+      pure (obj ([("tree", Json.str (treeStr t)), ("wf", Json.bool (envWFb env)),
+                 ("vj", ofValue (valueAndJacobian env0 st t)), ("v", ofValue (valueOnly env0 st t)),
+                 ("d1", ofValue (evaluateOpt true env0 st t)), ("d0", ofValue (evaluateOpt false env0 st t)),
                  ("s1", ofValue (evaluateDirect true env t)), ("s0", ofValue (evaluateDirect false env t))] ++ lists))
   | o => throw s!"unknown op {o}"
 
